@@ -351,7 +351,8 @@ class _RecLit(object):
         return ("LIT", self.data)
 
 
-_lit_start = hlib.strip_logs(up.LiteralUploader.start, consts=hlib.PROV_CONSTS)
+from _stripall import strip_all
+strip_all(up.LiteralUploader, consts=hlib.PROV_CONSTS)      # b"".join of the pieces, wherever it is written
 hlib.encoded(up.read_this_many_bytes, up.LiteralUploader._build_results, up.FileHandle.read)
 
 
@@ -367,7 +368,7 @@ def h_literal_uploader(size: int, c1: int, c2: int, c3: int, p: int) -> bool:
     saved = up.uri
     up.uri = NS(LiteralFileURI=_RecLit)
     try:
-        out = _collect(_lit_start(lu, fh))
+        out = _collect(lu.start(fh))
     finally:
         up.uri = saved
     if len(out) != 1 or isinstance(out[0], Failure):
@@ -402,8 +403,7 @@ class _IdAES(object):
         return data
 
 
-for _n in ("_hash_and_encrypt_plaintext", "_update_segment_hash", "get_all_encoding_parameters"):
-    hlib.strip_method(up.EncryptAnUploadable, _n)
+strip_all(up.EncryptAnUploadable)        # every method, so that helpers extracted from them lose their log lines too
 hlib.encoded(up.EncryptAnUploadable.read_encrypted, up.EncryptAnUploadable._read_encrypted, up.EncryptAnUploadable._get_encryptor,
              up._Accum.extend)
 
